@@ -68,9 +68,24 @@ def c01_sum_q(res, rng):
                      dict(type="sumq", c=c, ranks=ranks, mus=mus))
 
 
+def c01_ladder(res):
+    """the literal Lean model of _ladder_pairs against the real function"""
+    ns = list(range(0, 12))
+    outs = Driver().run(["LADDER %d" % n for n in ns])
+    for n, o in zip(ns, outs):
+        want = [[int(x) for x in part.split()] for part in o[3:].split("|")] if n > 0 else [[]]
+        got = core.wl_common._ladder_pairs(list(range(1, n + 1)))
+        res.traces += 1
+        res.count("ladder_literal_comparisons")
+        if got != want:
+            res.fail("correspondence", "C01: _ladder_pairs(1..%d) = %r differs from the literal Lean model %r" % (n, got, want), dict(type="ladder", n=n))
+
+
 def c01(res):
     rng = random.Random(res.seed)
     c01_sum_q(res, rng)
+    if res.shard == 0:
+        c01_ladder(res)
     n = size(res, 2500, 12000)
     games = [gen_game(rng) for _ in range(n)]
     # every weak order of n <= 4 (quick) / n <= 5 (thorough) teams, sharded
@@ -775,10 +790,10 @@ def c06_league(res, rng, kind, ngames, games):
     ls_model = always_ls or rng.random() < 0.2
     model = MODEL_CLS[kind](beta=beta, kappa=kappa, tau=tau, limit_sigma=ls_model)
     default = (25.0 * sc, 25.0 / 3.0 * sc)
-    pool = [model.rating(*(default if rng.random() < 0.4 else (rng.gauss(25, 8) * sc, rng.uniform(1, 9) * sc))) for _ in range(nplayers)]
+    pool = [model.rating(*(default if rng.random() < 0.6 else (rng.gauss(25, 8) * sc, rng.uniform(1, 9) * sc))) for _ in range(nplayers)]
     acc = [p.sigma ** 2 for p in pool]       # sigma_0^2 + sum of tau_g^2
     for gi in range(ngames):
-        if rng.random() < 0.05:
+        if rng.random() < 0.2:
             k = rng.randrange(nplayers)
             pool[k] = model.rating(*default)   # a newcomer replaces a player
             acc[k] = pool[k].sigma ** 2
@@ -864,8 +879,8 @@ def c06(res):
         res.case(g)
         res.count("large_margin_tie")
         c06_game(res, g, games)
-    for k in range(size(res, 12, 40)):
-        c06_league(res, rng, KINDS[k % 5], size(res, 150, 1500), games)
+    for k in range(size(res, 20, 60)):
+        c06_league(res, rng, KINDS[k % 5], size(res, 120, 1200), games)
     corr_games(res, games, "correspondence", "C06 rate numbers")
     res.rule = ("per game on the implementation: finite, sigma > 0, sigma <= sqrt(prior^2+tau^2) (1e-12 relative slack), with "
                 "limit_sigma sigma <= prior exactly; strata incl. teams 4-9 c apart, TM ties at draw margins t up to ~0.3, tau=0 "
